@@ -133,6 +133,10 @@ class C08(CheckBase):
         extra = rng.weighted([(12, None), (1, '--frob'), (1, '-x'), (1, '--help'), (1, '--dialect'), (1, '--listo'), (1, '-h'), (1, '-l'), (1, '-d'), (1, '-D'), (1, '--dump-token-maps'), (1, '--dump-token-maps=-'), (1, '--dump-token-maps=nonexistent-dir/x'), (1, '--dial'), (1, '--list=3')])
         ninputs = rng.weighted([(6, 1), (2, 2), (1, 3), (1, 0)])
         inputs = [self.gen_input(rng, gd) for _ in range(ninputs)]
+        for i, ent in enumerate(inputs):
+            if rng.chance(0.12):
+                # file names are data too (they end up in diagnostics): printf conversions, blanks, control characters
+                ent['name'] = rng.choice(['100%%sure%d.bas', '50%%n%d.bbc', '%%s%%s%%s%%s%%s%%s%d', 'a b%d.bbc', 'pro\tg%d', '%%d%d', '%%%%%d', 'x%d' + 'y' * 200, '%%c%%c%d', '%%-5000d%d']) % i
         delivery = rng.weighted([(6, 'file'), (2, 'stdin_file'), (2, 'stdin_pipe')]) if ninputs >= 1 else 'file'
         fault = rng.weighted([(10, None), (1, 'openfail'), (2, 'rfail'), (2, 'rchunk'), (1, 'stdout_wfail')])
         case = {'dialect': dialect, 'listo': listo, 'extra': extra, 'inputs': inputs, 'delivery': delivery, 'fault': fault,
@@ -164,7 +168,7 @@ class C08(CheckBase):
         files = {}
         names = []
         for i, ent in enumerate(case['inputs']):
-            name = 'in%d.bbc' % i
+            name = ent.get('name') or 'in%d.bbc' % i
             names.append(name)
             data = self.materialise(ent)
             if data is not None:
